@@ -231,6 +231,39 @@ def run(chk):
                         chk.unproven("close:correspondence-tolerance",
                                      "implementation and proved model differ with tolerances (%g, %g)" % (rel, abst),
                                      dict(rep, impl=it, model=mt))
+        # graphs derived from one that has already been compared (so whatever it memoises is filled): the renamed
+        # graph (names chosen to reverse the sorted order of demes and of migrations) and the graph in generations
+        # must be close, in both directions and both forms, to the same model resolved afresh
+        ranked = sorted(d.name for d in g.demes)
+        rmap = {nm: "r%03d" % (len(ranked) - i) for i, nm in enumerate(ranked)}
+        for how, derive in (("rename_demes", lambda: g.rename_demes(rmap)), ("in_generations", lambda: g.in_generations()),
+                            ("rename_demes-of-in_generations", lambda: g.in_generations().rename_demes(rmap))):
+            try:
+                import warnings
+                with warnings.catch_warnings():
+                    warnings.simplefilter("ignore")
+                    r = derive()
+                    if not graphs.still_valid(r):
+                        continue
+                    fresh = rebuild(r.asdict())
+            except Exception:
+                chk.count("derived_failed")
+                continue
+            chk.count("derived_" + how)
+            pr, pf = gen.graph_payload(r), gen.graph_payload(fresh)
+            chk.case([pr, pf, how], nontrivial=len(g.demes) > 1)
+            rep = dict(op="isclose", a=pr, b=pf, kind="derived:" + how, label=label, original=pg, rename=rmap)
+            ab, ab2 = forms(r, fresh)
+            ba, ba2 = forms(fresh, r)
+            rr, rr2 = forms(r, r)
+            if not (ab and ab2 and ba and ba2 and rr and rr2):
+                chk.violation("close:derived-graph-not-close-to-its-own-model:" + how,
+                              "a graph obtained by %s from a graph that had been compared before is not close to the same "
+                              "model resolved afresh (isclose %r/%r, assert_close %r/%r, itself %r/%r)"
+                              % (how, ab, ba, ab2, ba2, rr, rr2), rep)
+            if drv.call("close", pr, pf, 1e-9, 1e-12) != ab:
+                chk.disagreements += 1
+                chk.unproven("close:correspondence", "implementation and proved model differ", dict(rep, impl=ab))
         chk.sample(dict(graph=label, demes=len(g.demes), migrations=len(g.migrations), pulses=len(g.pulses)))
     drv.close()
     return chk.finish("proof", nobl, ndis, axioms, RULE,
